@@ -3,6 +3,9 @@ package checks
 import (
 	"fmt"
 	"testing"
+	"time"
+
+	v1 "github.com/DataDog/extendeddaemonset/api/v1alpha1"
 
 	"verif/mc/h"
 	w "verif/mc/world"
@@ -34,7 +37,13 @@ func TestC08(t *testing.T) {
 		if e == nil {
 			return
 		}
-		if w.AnnotTrue(e, "rolling-update-paused") || w.AnnotTrue(e, "rollout-frozen") || w.AnnotTrue(e, "canary-paused") {
+		autoPaused := false
+		if e.Status.Canary != nil {
+			if crs := s.ERS("ns", e.Status.Canary.ReplicaSet); crs != nil && w.ERSCondTrue(crs, v1.ConditionTypeCanaryPaused) {
+				autoPaused = true
+			}
+		}
+		if w.AnnotTrue(e, "rolling-update-paused") || w.AnnotTrue(e, "rollout-frozen") || w.AnnotTrue(e, "canary-paused") || autoPaused {
 			k++
 			if h.Thorough() || k%5 == 0 {
 				if perSc[sc.Name] < 35000 {
@@ -71,6 +80,30 @@ func TestC08(t *testing.T) {
 				}
 			}
 		}
+		// (3) a paused canary (by annotation or by the replica set's own Canary-Paused condition, e.g. auto-paused after
+		// restarts) resumes on `kubectl-eds canary unpause`: it does not stay (or fall back to) Canary Paused
+		if e.Status.Canary != nil && e.Spec.Strategy.Canary != nil {
+			crs := st.s.ERS("ns", e.Status.Canary.ReplicaSet)
+			if crs != nil && !w.ERSCondTrue(crs, v1.ConditionTypeCanaryFailed) && (w.AnnotTrue(e, "canary-paused") || w.ERSCondTrue(crs, v1.ConditionTypeCanaryPaused)) {
+				out := w.Step(t, st.sc, st.s, evb("kubectl", edsKey, "canary-unpause"))
+				if out.CmdErr == nil {
+					r := w.Closure(t, st.sc, out.Next, w.ClosureOpts{SkipJumps: true, MaxStep: 10 * time.Second})
+					run.Count("antecedent:C08/unpause-closure", 1)
+					run.Count("closures", 1)
+					if r.Converged {
+						fe := r.Final.EDS("ns", "foo")
+						frs := r.Final.ERS("ns", crs.Name)
+						stillCanary := fe != nil && fe.Status.Canary != nil && fe.Status.Canary.ReplicaSet == crs.Name
+						if stillCanary && frs != nil && !w.ERSCondTrue(frs, v1.ConditionTypeCanaryFailed) && w.AnnotTrue(fe, "canary-unpaused") &&
+							(fe.Status.State == v1.ExtendedDaemonSetStatusStateCanaryPaused || w.ERSCondTrue(frs, v1.ConditionTypeCanaryPaused)) {
+							run.Violate(h.Violation{Signature: "C08/unpause: a paused canary does not resume after canary unpause", Monitor: "C08/closure",
+								Message: fmt.Sprintf("state=%s Canary-Paused=%v", fe.Status.State, w.ERSCondTrue(frs, v1.ConditionTypeCanaryPaused)),
+								Replay: map[string]interface{}{"scenario": st.sc.Name, "start_state": st.s.Describe(), "then": "kubectl-eds canary unpause, fair rounds", "final_state": r.Final.Describe()}})
+						}
+					}
+				}
+			}
+		}
 		r := w.Closure(t, st.sc, st.s, w.ClosureOpts{Validate: true, Resume: true, SkipJumps: true})
 		run.Count("antecedent:C08/resume-closure", 1)
 		run.Count("closures", 1)
@@ -84,7 +117,7 @@ func TestC08(t *testing.T) {
 			run.Violate(h.Violation{Signature: sig, Monitor: "C08/closure", Message: msg, Replay: map[string]interface{}{"scenario": st.sc.Name, "start_state": st.s.Describe(), "final_state": r.Final.Describe()}})
 		}
 	})
-	requireAntecedents(run, "C08/resume-closure", "C08/paused-closure")
+	requireAntecedents(run, "C08/resume-closure", "C08/paused-closure", "C08/unpause-closure")
 	if n := run.Counter("held_states_not_kept"); n > 0 {
 		run.NotExhaustive(fmt.Sprintf("%d states beyond the first 35000 of a scenario were not used as closure starts", n))
 	}
